@@ -50,7 +50,7 @@ theorem exec_spec {b : Nat} {rec : Rec} (hrec : HookOK b rec) (w : World) (fuel 
   | .ident v, N, _, hwf => by
     unfold exec
     have hv : ArgOld b v := hwf v (by simp [Prog.vals])
-    refine Spec.bind (Spec.logPass (P' := OldClosed b) v (fun _ h => h) (fun _ _ h => h)) (fun _ => ?_)
+    refine Spec.bind (Spec.logIdent (P' := OldClosed b) v (fun _ h => h) (fun _ _ h => h)) (fun _ => ?_)
     refine Spec.conseq (Spec.ret _) (fun _ h => h) (fun r st h => ?_)
     rw [h.1]
     refine ⟨h.2.1, ?_⟩
